@@ -11,6 +11,7 @@ mod props;
 mod rng;
 mod scenario;
 mod streamprop;
+mod tracer;
 
 use std::path::PathBuf;
 
